@@ -142,7 +142,7 @@ def metamorphic(case, full=False, focus=None):
             try:
                 results[label] = ("ok", eng.query(sql))
             except engines.EngineError as e:
-                if dialect == "pg" and engines.surrogate_cannot_run(e) and _pg_only(str(e.exc)):
+                if engines.engine_limit(e) or (dialect == "pg" and engines.surrogate_cannot_run(e) and _pg_only(str(e.exc))):
                     results[label] = ("surrogate_cannot_run", str(e.exc)[:200])
                 else:
                     results[label] = ("exec_error", str(e.exc)[-300:])
